@@ -1291,7 +1291,14 @@ func (t *Tree) Compile(file string, args []string, out io.Writer) (err error) {
 		ko := label
 		label++
 		_print("\n  /* %v ", element.GetID())
+		start := buffer.Len()
 		printRule(element)
+		if rule := buffer.Bytes()[start:]; bytes.Contains(rule, []byte("*/")) {
+			// an action or predicate may contain a comment: keep it from closing this one
+			rule = bytes.ReplaceAll(rule, []byte("*/"), []byte("* /"))
+			buffer.Truncate(start)
+			buffer.Write(rule)
+		}
 		_print(" */")
 		if count, ok := t.rulesCount[element.String()]; !ok {
 			t.warn(fmt.Errorf("rule '%v' defined but not used", element))
